@@ -7,8 +7,10 @@
   memory primitives of Model/Encode.lean; its value is the frame handed to `conn.WriteTo`.  `ICMP.SetChecksum` is
   regenerated from its own body.  Each theorem below proves a regenerated send path EQUAL to the hand-written
   send-path model of Model/Encode.lean that the frame theorems of Props/C07.lean (`sent_*_wf`) are about:
-  `arpRequest_tie` for every buffer and all arguments, the others for every pool buffer with room for the frame,
-  6-byte MACs and 4/16-byte addresses — the hypotheses of the corresponding `sent_*_wf` theorem.  A changed
+  the ARP and UDP/IPv4 paths (`arpRequest_tie`, `requestRaw_tie`, `reply_tie`, `sendDHCP4Packet_tie`, `sendNBNS_tie`,
+  `sendSSDPSearch_tie`, `sendMDNS4_tie` and the ARP wrappers) for EVERY buffer and all arguments, the ICMP and IPv6 paths for
+  every buffer with room for the frame, 6-byte MACs and 4/16-byte addresses — the hypotheses of the corresponding
+  `sent_*_wf` theorem.  A changed
   constant (EtherType, TTL, hop limit, protocol number, port), offset, statement order, Ethernet source, checksum
   position or pseudo-header layout in a Go send path makes the corresponding proof fail at build time.
 -/
@@ -110,83 +112,252 @@ theorem arpRequest_tie (g : Mem) (hostMAC dst smac sip tmac tip : Bytes) (sport 
   | none => simp only [orNil, put16_nil]; rfl
   | some arp => rfl
 
-/-! ### the other send paths: for every pool buffer with room for the frame -/
+/-! ### ARP and UDP/IPv4 send paths: for EVERY buffer and all arguments
 
-theorem requestRaw_tie (g : Mem) (hostMAC dst smac sip tmac tip : Bytes) (sport tport : Nat)
-    (h1 : hostMAC.length = 6) (h2 : dst.length = 6) (h3 : smac.length = 6) (h4 : sip.length = 4)
-    (h5 : tmac.length = 6) (h6 : tip.length = 4) (hcap : 42 ≤ g.length) :
+  The regenerated body and the model are the same sequence of encoder calls; they differ in how a nil slice travels
+  (`orNil` vs an explicit `match`) and in the payload argument of SetPayload (`(x.bytes m).length` vs `x.len`).  Both are
+  bridged in general: an encoder applied to nil fails as the model says (`encodeARP_nil`, `encodeIP4_nil`,
+  `udpAppendPayload_nil`), and a slice returned by a successful encoder lies inside the memory it returns
+  (`encodeARP_inb`, `udpAppendPayload_inb`, `ip4SetPayload_inb`: no store changes the length of the memory). -/
+
+theorem reslice_inb (m : Mem) (s d : Sl) (a b : Nat) (h : s.reslice m a b = .ok d) : d.off + d.len ≤ m.length := by
+  unfold Sl.reslice at h
+  split at h
+  · rename_i hc
+    cases h
+    simp only [Sl.cap] at hc
+    show s.off + a + (b - a) ≤ m.length
+    omega
+  · cases h
+
+theorem copyAt_len (m m' : Mem) (s : Sl) (a b : Nat) (src : Bytes) (h : s.copyAt m a b src = .ok m') : m'.length = m.length := by
+  unfold Sl.copyAt at h
+  cases hd : s.reslice m a b with
+  | ok d =>
+    rw [hd] at h
+    have hi := reslice_inb m s d a b hd
+    cases h
+    exact poke_length m d.off _ (by simp only [List.length_take]; omega)
+  | err e => rw [hd] at h; cases h
+  | panic => rw [hd] at h; cases h
+  | hang => rw [hd] at h; cases h
+
+theorem put16_len (m m' : Mem) (s : Sl) (a v : Nat) (h : s.put16 m a v = .ok m') : m'.length = m.length :=
+  copyAt_len m m' s a (a + 2) _ h
+
+theorem put8_len (m m' : Mem) (s : Sl) (i : Nat) (v : UInt8) (h : s.put8 m i v = .ok m') : m'.length = m.length := by
+  unfold Sl.put8 at h
+  split at h
+  · cases h; exact poke_length m _ _ (by simp; omega)
+  · cases h
+
+theorem bind_ok_inv {α β} (x : Outcome α) (f : α → Outcome β) (y : β) (h : x >>= f = .ok y) :
+    ∃ a, x = .ok a ∧ f a = .ok y := by
+  cases x with
+  | ok a => exact ⟨a, rfl, h⟩
+  | err e => cases h
+  | panic => cases h
+  | hang => cases h
+
+theorem encodeARP_inb (m m' : Mem) (p a : Sl) (op : Nat) (smac sip tmac tip : Bytes)
+    (h : encodeARP m p op smac sip tmac tip = .ok (m', a)) : a.off + a.len ≤ m'.length := by
+  unfold encodeARP at h
+  split at h
+  · cases h
+  · obtain ⟨a0, h0, h⟩ := bind_ok_inv _ _ _ h
+    have hi := reslice_inb m p a0 0 28 h0
+    obtain ⟨m1, e1, h⟩ := bind_ok_inv _ _ _ h
+    obtain ⟨m2, e2, h⟩ := bind_ok_inv _ _ _ h
+    obtain ⟨m3, e3, h⟩ := bind_ok_inv _ _ _ h
+    obtain ⟨m4, e4, h⟩ := bind_ok_inv _ _ _ h
+    obtain ⟨m5, e5, h⟩ := bind_ok_inv _ _ _ h
+    obtain ⟨sm, _, h⟩ := bind_ok_inv _ _ _ h
+    obtain ⟨m6, e6, h⟩ := bind_ok_inv _ _ _ h
+    obtain ⟨m7, e7, h⟩ := bind_ok_inv _ _ _ h
+    obtain ⟨tm, _, h⟩ := bind_ok_inv _ _ _ h
+    obtain ⟨m8, e8, h⟩ := bind_ok_inv _ _ _ h
+    obtain ⟨m9, e9, h⟩ := bind_ok_inv _ _ _ h
+    cases h
+    have := put16_len _ _ _ _ _ e1
+    have := put16_len _ _ _ _ _ e2
+    have := put8_len _ _ _ _ _ e3
+    have := put8_len _ _ _ _ _ e4
+    have := put16_len _ _ _ _ _ e5
+    have := copyAt_len _ _ _ _ _ _ e6
+    have := copyAt_len _ _ _ _ _ _ e7
+    have := copyAt_len _ _ _ _ _ _ e8
+    have := copyAt_len _ _ _ _ _ _ e9
+    omega
+
+theorem encodeARP_nil (m : Mem) (op : Nat) (smac sip tmac tip : Bytes) :
+    encodeARP m (nilSl m) op smac sip tmac tip = .panic := by
+  unfold encodeARP
+  rw [if_pos (by simp [Sl.cap, nilSl])]
+
+theorem encodeIP4_nil (m : Mem) (ttl : UInt8) (src dst : Bytes) : encodeIP4 m (nilSl m) ttl src dst = .panic := by
+  unfold encodeIP4
+  have : (nilSl m).put8 m 0 0x45 = .panic := by
+    unfold Sl.put8; rw [if_neg (by simp [nilSl])]
+  rw [this]; rfl
+
+theorem udpAppendPayload_nil (m : Mem) (b : Bytes) :
+    udpAppendPayload m (nilSl m) b = if b.length > 0 then .err .payloadTooBig else .panic := by
+  unfold udpAppendPayload
+  have hc : (nilSl m).cap m = 0 := by simp [Sl.cap, nilSl]
+  have hl : (nilSl m).len = 0 := rfl
+  rw [hc, hl]
+  by_cases h : b.length > 0
+  · rw [if_pos (by omega), if_pos h]
+  · rw [if_neg (by omega), if_neg h]
+    have hb : b.length = 0 := by omega
+    rw [hb]
+    have h1 : (nilSl m).reslice m 0 (0 + 0) = .ok ⟨m.length, 0⟩ := by
+      unfold Sl.reslice; rw [if_pos (by simp [Sl.cap, nilSl])]; rfl
+    have h2 : (⟨m.length, 0⟩ : Sl).from_ m 8 = .panic := by
+      unfold Sl.from_ Sl.reslice; rw [if_neg (by simp)]
+    simp only [h1, bind_ok', h2, bind_panic']
+
+theorem udpAppendPayload_inb (m m' : Mem) (p u : Sl) (b : Bytes) (h : udpAppendPayload m p b = .ok (m', u)) :
+    u.off + u.len ≤ m'.length := by
+  unfold udpAppendPayload at h
+  split at h
+  · cases h
+  · obtain ⟨p1, h0, h⟩ := bind_ok_inv _ _ _ h
+    have hi := reslice_inb m p p1 _ _ h0
+    obtain ⟨pay, h1, h⟩ := bind_ok_inv _ _ _ h
+    have hp := reslice_inb m p1 pay _ _ h1
+    have hk : (poke m pay.off (b.take pay.len)).length = m.length :=
+      poke_length m pay.off _ (by simp only [List.length_take]; omega)
+    obtain ⟨m2, e2, h⟩ := bind_ok_inv _ _ _ h
+    obtain ⟨m3, e3, h⟩ := bind_ok_inv _ _ _ h
+    cases h
+    have := put16_len _ _ _ _ _ e2
+    have := put16_len _ _ _ _ _ e3
+    omega
+
+theorem ip4SetPayload_inb (m m' : Mem) (p r : Sl) (n : Nat) (proto : UInt8) (h : ip4SetPayload m p n proto = .ok (m', r)) :
+    r.off + r.len ≤ m'.length := by
+  unfold ip4SetPayload at h
+  obtain ⟨m1, _, h⟩ := bind_ok_inv _ _ _ h
+  obtain ⟨m2, _, h⟩ := bind_ok_inv _ _ _ h
+  obtain ⟨cs, _, h⟩ := bind_ok_inv _ _ _ h
+  obtain ⟨m3, _, h⟩ := bind_ok_inv _ _ _ h
+  obtain ⟨r0, hr, h⟩ := bind_ok_inv _ _ _ h
+  cases h
+  exact reslice_inb _ _ _ _ _ hr
+
+/-- the common UDP/IPv4 composition as the send functions write it = `sendUDP4`, for every buffer and all arguments -/
+theorem udp4_body_all (g : Mem) (sm dm sip dip : Bytes) (ttl : UInt8) (sp dp : Nat) (pl : Bytes) :
+    (do
+      let (m, ether) ← encodeEther g (whole g) 2048 sm dm
+      let t1 ← etherPayloadSl m ether
+      let t1 := orNil m t1
+      let (m, ip4) ← encodeIP4 m t1 ttl sip dip
+      let t2 ← ip4PayloadSl m ip4
+      let (m, t3) ← encodeUDP m t2 sp dp
+      let udp := orNil m t3
+      let (m, udp) ← udpAppendPayload m udp pl
+      let (m, ip4) ← ip4SetPayload m ip4 (udp.bytes m).length 17
+      let (m, ether) ← (etherSetPayload m ether (ip4.bytes m).length >>= fun r => pure (m, r))
+      pure (ether.bytes m)) = sendUDP4 g sm dm ttl sip dip sp dp pl := by
+  unfold sendUDP4
+  refine bind_congr _ _ _ fun ⟨m, e⟩ => bind_congr _ _ _ fun o => ?_
+  cases o with
+  | none => simp only [orNil, encodeIP4_nil]; rfl
+  | some pay =>
+    simp only [orNil]
+    refine bind_congr _ _ _ fun ⟨m1, ip⟩ => bind_congr _ _ _ fun ipay => bind_congr _ _ _ fun ⟨m2, ou⟩ => ?_
+    cases ou with
+    | none => simp only [orNil, udpAppendPayload_nil]; split <;> rfl
+    | some u =>
+      simp only [orNil]
+      cases hU : udpAppendPayload m2 u pl with
+      | ok v =>
+        obtain ⟨m3, u'⟩ := v
+        have hi := udpAppendPayload_inb _ _ _ _ _ hU
+        simp only [bind_ok', bytes_length m3 u' hi]
+        cases hI : ip4SetPayload m3 ip u'.len 17 with
+        | ok w =>
+          obtain ⟨m4, ip'⟩ := w
+          have hj := ip4SetPayload_inb _ _ _ _ _ _ hI
+          simp only [bind_ok', bytes_length m4 ip' hj]
+          cases etherSetPayload m4 e ip'.len <;> rfl
+        | err e => rfl
+        | panic => rfl
+        | hang => rfl
+      | err e => rfl
+      | panic => rfl
+      | hang => rfl
+
+/-- arp_spoofer RequestRaw / reply for EVERY buffer and all arguments -/
+theorem requestRaw_tie (g : Mem) (hostMAC dst smac sip tmac tip : Bytes) (sport tport : Nat) :
     Gen.Send.arp_spoofer_RequestRaw g dst smac sip sport tmac tip tport hostMAC =
       sendARP g hostMAC dst 1 smac sip tmac tip := by
-  rw [sendARP_frame g hostMAC dst 1 smac sip tmac tip h1 h2 h3 h4 h5 h6 (by decide) hcap]
-  cells h1; cells h2; cells h3; cells h4; cells h5; cells h6; cells_le hcap
-  unfold Gen.Send.arp_spoofer_RequestRaw
+  unfold Gen.Send.arp_spoofer_RequestRaw sendARP
   simp only [encodeEther_tie, encodeARP_tie, etherSetPayload_tie]
-  send_exec
-  enc_exec
-  frame_simp
+  refine bind_congr _ _ _ fun ⟨m, e⟩ => bind_congr _ _ _ fun o => ?_
+  cases o with
+  | none => simp only [orNil, encodeARP_nil]; rfl
+  | some pay =>
+    simp only [orNil]
+    cases hA : encodeARP m pay 1 smac sip tmac tip with
+    | ok v =>
+      obtain ⟨m', a⟩ := v
+      have hi := encodeARP_inb m m' pay a 1 smac sip tmac tip hA
+      simp only [bind_ok', bytes_length m' a hi]
+      cases etherSetPayload m' e a.len <;> rfl
+    | err e => rfl
+    | panic => rfl
+    | hang => rfl
 
-theorem reply_tie (g : Mem) (hostMAC dst smac sip tmac tip : Bytes) (sport tport : Nat)
-    (h1 : hostMAC.length = 6) (h2 : dst.length = 6) (h3 : smac.length = 6) (h4 : sip.length = 4)
-    (h5 : tmac.length = 6) (h6 : tip.length = 4) (hcap : 42 ≤ g.length) :
+theorem reply_tie (g : Mem) (hostMAC dst smac sip tmac tip : Bytes) (sport tport : Nat) :
     Gen.Send.arp_spoofer_reply g dst smac sip sport tmac tip tport hostMAC =
       sendARP g hostMAC dst 2 smac sip tmac tip := by
-  rw [sendARP_frame g hostMAC dst 2 smac sip tmac tip h1 h2 h3 h4 h5 h6 (by decide) hcap]
-  cells h1; cells h2; cells h3; cells h4; cells h5; cells h6; cells_le hcap
-  unfold Gen.Send.arp_spoofer_reply
+  unfold Gen.Send.arp_spoofer_reply sendARP
   simp only [encodeEther_tie, encodeARP_tie, etherSetPayload_tie]
-  send_exec
-  enc_exec
-  frame_simp
-
-theorem sendDHCP4Packet_tie (g : Mem) (sm dm sip dip : Bytes) (sp dp : Nat) (pl : Bytes)
-    (h1 : sm.length = 6) (h2 : dm.length = 6) (h3 : sip.length = 4) (h4 : dip.length = 4)
-    (hsp : sp < 65536) (hdp : dp < 65536) (hfit : 42 + pl.length ≤ g.length) (hsmall : 28 + pl.length < 65536) :
+  refine bind_congr _ _ _ fun ⟨m, e⟩ => bind_congr _ _ _ fun o => ?_
+  cases o with
+  | none => simp only [orNil, encodeARP_nil]; rfl
+  | some pay =>
+    simp only [orNil]
+    cases hA : encodeARP m pay 2 smac sip tmac tip with
+    | ok v =>
+      obtain ⟨m', a⟩ := v
+      have hi := encodeARP_inb m m' pay a 2 smac sip tmac tip hA
+      simp only [bind_ok', bytes_length m' a hi]
+      cases etherSetPayload m' e a.len <;> rfl
+    | err e => rfl
+    | panic => rfl
+    | hang => rfl
+theorem sendDHCP4Packet_tie (g : Mem) (sm dm sip dip : Bytes) (sp dp : Nat) (pl : Bytes) :
     Gen.Send.dhcp4_spoofer_sendDHCP4Packet g sm sip sp dm dip dp pl = sendUDP4 g sm dm 50 sip dip sp dp pl := by
-  rw [sendUDP4_frame g sm dm sip dip 50 sp dp pl h1 h2 h3 h4 hsp hdp hfit hsmall]
-  have hcap : 42 ≤ g.length := by omega
-  cells h1; cells h2; cells h3; cells h4; cells_le hcap
-  rename_i T
-  simp only [List.length_cons] at hfit
-  obtain ⟨A, T', rfl, hA⟩ := split_tail T pl.length (by omega)
   unfold Gen.Send.dhcp4_spoofer_sendDHCP4Packet
   simp only [encodeEther_tie, encodeIP4_tie, encodeUDP_tie, udpAppendPayload_tie, ip4SetPayload_tie, etherSetPayload_tie]
-  send_exec
-  enc_exec
-  rw [show 20 + (8 + pl.length) = 28 + pl.length by omega]
-  frame_close T'
-theorem sendNBNS_tie (g : Mem) (sm dm sip dip : Bytes) (sp dp : Nat) (pl : Bytes)
-    (h1 : sm.length = 6) (h2 : dm.length = 6) (h3 : sip.length = 4) (h4 : dip.length = 4)
-    (hfit : 42 + pl.length ≤ g.length) (hsmall : 28 + pl.length < 65536) :
+  exact udp4_body_all g sm dm sip dip 50 sp dp pl
+
+theorem sendNBNS_tie (g : Mem) (sm dm sip dip : Bytes) (sp dp : Nat) (pl : Bytes) :
     Gen.Send.dns_naming_sendNBNS g sm sip sp dm dip dp pl = sendUDP4 g sm dm 255 sip dip 137 137 pl := by
-  rw [sendUDP4_frame g sm dm sip dip 255 137 137 pl h1 h2 h3 h4 (by decide) (by decide) hfit hsmall]
-  have hcap : 42 ≤ g.length := by omega
-  cells h1; cells h2; cells h3; cells h4; cells_le hcap
-  rename_i T
-  simp only [List.length_cons] at hfit
-  obtain ⟨A, T', rfl, hA⟩ := split_tail T pl.length (by omega)
   unfold Gen.Send.dns_naming_sendNBNS
   simp only [encodeEther_tie, encodeIP4_tie, encodeUDP_tie, udpAppendPayload_tie, ip4SetPayload_tie, etherSetPayload_tie]
-  send_exec
-  enc_exec
-  rw [show 20 + (8 + pl.length) = 28 + pl.length by omega]
-  frame_close T'
+  exact udp4_body_all g sm dm sip dip 255 137 137 pl
 
-theorem sendSSDPSearch_tie (g : Mem) (sm dm sip dip : Bytes) (pl : Bytes)
-    (h1 : sm.length = 6) (h2 : dm.length = 6) (h3 : sip.length = 4) (h4 : dip.length = 4)
-    (hfit : 42 + pl.length ≤ g.length) (hsmall : 28 + pl.length < 65536) :
+theorem sendSSDPSearch_tie (g : Mem) (sm dm sip dip : Bytes) (pl : Bytes) :
     Gen.Send.dns_naming_SendSSDPSearch g sm dm sip dip pl = sendUDP4 g sm dm 255 sip dip 1900 1900 pl := by
-  rw [sendUDP4_frame g sm dm sip dip 255 1900 1900 pl h1 h2 h3 h4 (by decide) (by decide) hfit hsmall]
-  have hcap : 42 ≤ g.length := by omega
-  cells h1; cells h2; cells h3; cells h4; cells_le hcap
-  rename_i T
-  simp only [List.length_cons] at hfit
-  obtain ⟨A, T', rfl, hA⟩ := split_tail T pl.length (by omega)
   unfold Gen.Send.dns_naming_SendSSDPSearch
   simp only [encodeEther_tie, encodeIP4_tie, encodeUDP_tie, udpAppendPayload_tie, ip4SetPayload_tie, etherSetPayload_tie]
-  send_exec
-  enc_exec
-  rw [show 20 + (8 + pl.length) = 28 + pl.length by omega]
-  frame_close T'
+  exact udp4_body_all g sm dm sip dip 255 1900 1900 pl
+
+/-- sendMDNS, IPv4 branch: every source address of 4 bytes, all other arguments arbitrary -/
+theorem sendMDNS4_tie (g : Mem) (hm dm smac sip dip : Bytes) (sport dp : Nat) (pl : Bytes) (h3 : sip.length = 4) :
+    Gen.Send.dns_naming_sendMDNS g pl smac sip sport dm dip dp hm =
+      sendUDP4 (List.replicate 1522 0) hm dm 255 sip dip dp dp pl := by
+  unfold Gen.Send.dns_naming_sendMDNS
+  simp only [encodeEther_tie, encodeIP4_tie, encodeUDP_tie, udpAppendPayload_tie, ip4SetPayload_tie, etherSetPayload_tie]
+  rw [if_pos h3]
+  exact udp4_body_all _ hm dm sip dip 255 dp dp pl
+
+
+/-! ### ICMP and IPv6 send paths: for every buffer with room for the frame -/
 
 theorem icmp4SendPacket_tie (g : Mem) (hm dm smac sip dip msg : Bytes) (sport dport : Nat)
     (h1 : hm.length = 6) (h2 : dm.length = 6) (h3 : sip.length = 4) (h4 : dip.length = 4)
@@ -236,101 +407,7 @@ theorem icmp6SendPacket_tie (g : Mem) (hm dm smac sip dip msg : Bytes) (sport dp
       (by simp only [List.length_cons, List.length_nil, List.length_append, ip6Hdr, putChecksum, List.length_set];
           omega))
 
-/-! ### the UDP/IPv4 send paths outside the frame region: payload too big for the buffer (no hypothesis on the addresses) -/
-
-/-- payload too big for the pool buffer: the regenerated body and the model both return ErrPayloadTooBig, whatever
-    the address arguments are (`copy` is clipped) -/
-theorem sendDHCP4Packet_too_big_tie (g : Mem) (sm dm sip dip : Bytes) (sp dp : Nat) (pl : Bytes)
-    (hcap : 42 ≤ g.length) (hbig : g.length < 42 + pl.length) :
-    Gen.Send.dhcp4_spoofer_sendDHCP4Packet g sm sip sp dm dip dp pl = sendUDP4 g sm dm 50 sip dip sp dp pl := by
-  rw [sendUDP4_too_big g sm dm sip dip 50 sp dp pl hcap hbig]
-  obtain ⟨E, hE, he⟩ := encodeEther_any g g.length 0x0800 sm dm (by omega)
-  unfold Gen.Send.dhcp4_spoofer_sendDHCP4Packet
-  simp only [encodeEther_tie, encodeIP4_tie, encodeUDP_tie, udpAppendPayload_tie, ip4SetPayload_tie, etherSetPayload_tie]
-  rw [show whole g = ⟨0, g.length⟩ from rfl, he]
-  simp only [bind_ok', encodeIP4]
-  have hs := as4_length sip
-  have hd := as4_length dip
-  generalize as4 sip = S at hs
-  generalize as4 dip = D at hd
-  have hT : 28 ≤ (g.drop 14).length := by simp; omega
-  have hT2 : (g.drop 14).length < 28 + pl.length := by simp; omega
-  generalize g.drop 14 = T at hT hT2
-  cells hE; cells hs; cells hd; cells_le hT
-  simp only [List.length_cons] at hT2
-  simp only [List.cons_append, List.nil_append]
-  send_exec
-  simp (disch := mdisch) only [udpAppendPayload_big, bind_err']
-
-theorem sendNBNS_too_big_tie (g : Mem) (sm dm sip dip : Bytes) (sp dp : Nat) (pl : Bytes)
-    (hcap : 42 ≤ g.length) (hbig : g.length < 42 + pl.length) :
-    Gen.Send.dns_naming_sendNBNS g sm sip sp dm dip dp pl = sendUDP4 g sm dm 255 sip dip 137 137 pl := by
-  rw [sendUDP4_too_big g sm dm sip dip 255 137 137 pl hcap hbig]
-  obtain ⟨E, hE, he⟩ := encodeEther_any g g.length 0x0800 sm dm (by omega)
-  unfold Gen.Send.dns_naming_sendNBNS
-  simp only [encodeEther_tie, encodeIP4_tie, encodeUDP_tie, udpAppendPayload_tie, ip4SetPayload_tie, etherSetPayload_tie]
-  rw [show whole g = ⟨0, g.length⟩ from rfl, he]
-  simp only [bind_ok', encodeIP4]
-  have hs := as4_length sip
-  have hd := as4_length dip
-  generalize as4 sip = S at hs
-  generalize as4 dip = D at hd
-  have hT : 28 ≤ (g.drop 14).length := by simp; omega
-  have hT2 : (g.drop 14).length < 28 + pl.length := by simp; omega
-  generalize g.drop 14 = T at hT hT2
-  cells hE; cells hs; cells hd; cells_le hT
-  simp only [List.length_cons] at hT2
-  simp only [List.cons_append, List.nil_append]
-  send_exec
-  simp (disch := mdisch) only [udpAppendPayload_big, bind_err']
-
-theorem sendSSDPSearch_too_big_tie (g : Mem) (sm dm sip dip : Bytes) (pl : Bytes)
-    (hcap : 42 ≤ g.length) (hbig : g.length < 42 + pl.length) :
-    Gen.Send.dns_naming_SendSSDPSearch g sm dm sip dip pl = sendUDP4 g sm dm 255 sip dip 1900 1900 pl := by
-  rw [sendUDP4_too_big g sm dm sip dip 255 1900 1900 pl hcap hbig]
-  obtain ⟨E, hE, he⟩ := encodeEther_any g g.length 0x0800 sm dm (by omega)
-  unfold Gen.Send.dns_naming_SendSSDPSearch
-  simp only [encodeEther_tie, encodeIP4_tie, encodeUDP_tie, udpAppendPayload_tie, ip4SetPayload_tie, etherSetPayload_tie]
-  rw [show whole g = ⟨0, g.length⟩ from rfl, he]
-  simp only [bind_ok', encodeIP4]
-  have hs := as4_length sip
-  have hd := as4_length dip
-  generalize as4 sip = S at hs
-  generalize as4 dip = D at hd
-  have hT : 28 ≤ (g.drop 14).length := by simp; omega
-  have hT2 : (g.drop 14).length < 28 + pl.length := by simp; omega
-  generalize g.drop 14 = T at hT hT2
-  cells hE; cells hs; cells hd; cells_le hT
-  simp only [List.length_cons] at hT2
-  simp only [List.cons_append, List.nil_append]
-  send_exec
-  simp (disch := mdisch) only [udpAppendPayload_big, bind_err']
-
 /-! ### dns_naming `sendMDNS`: the frame buffer is allocated (`make([]byte, EthMaxSize)`), IPv4 and IPv6 branch -/
-
-theorem sendMDNS4_tie (hm dm smac sip dip : Bytes) (sport dp : Nat) (pl : Bytes) (g : Mem)
-    (h1 : hm.length = 6) (h2 : dm.length = 6) (h3 : sip.length = 4) (h4 : dip.length = 4)
-    (hdp : dp < 65536) (hfit : 42 + pl.length ≤ 1522) :
-    Gen.Send.dns_naming_sendMDNS g pl smac sip sport dm dip dp hm =
-      sendUDP4 (List.replicate 1522 0) hm dm 255 sip dip dp dp pl := by
-  unfold Gen.Send.dns_naming_sendMDNS
-  generalize hg : List.replicate 1522 (0 : UInt8) = g'
-  have hgl : g'.length = 1522 := by rw [← hg, List.length_replicate]
-  clear hg
-  rw [sendUDP4_frame g' hm dm sip dip 255 dp dp pl h1 h2 h3 h4 hdp hdp (by omega) (by omega)]
-  rw [if_pos h3]
-  have hcap : 42 ≤ g'.length := by omega
-  have hfit' : 42 + pl.length ≤ g'.length := by omega
-  clear hgl
-  cells h1; cells h2; cells h3; cells h4; cells_le hcap
-  rename_i T
-  simp only [List.length_cons] at hfit'
-  obtain ⟨A, T', rfl, hA⟩ := split_tail T pl.length (by omega)
-  simp only [encodeEther_tie, encodeIP4_tie, encodeUDP_tie, udpAppendPayload_tie, ip4SetPayload_tie, etherSetPayload_tie]
-  send_exec
-  enc_exec
-  rw [show 20 + (8 + pl.length) = 28 + pl.length by omega]
-  frame_close T'
 
 theorem sendMDNS6_tie (hm dm smac sip dip : Bytes) (sport dp : Nat) (pl : Bytes) (g : Mem)
     (h1 : hm.length = 6) (h2 : dm.length = 6) (h3 : sip.length = 16) (h4 : dip.length = 16)
@@ -383,12 +460,10 @@ theorem nsMarshal_length (ip mac : Bytes) (hm : mac.length = 6) : (nsMarshal ip 
 
 def hello : Bytes := [72, 69, 76, 76, 79, 45, 78, 69, 84, 70, 73, 76, 84, 69, 82]
 
-theorem reply_wrapper_tie (g : Mem) (hostMAC dst smac sip tmac tip : Bytes) (sport tport : Nat)
-    (h1 : hostMAC.length = 6) (h2 : dst.length = 6) (h3 : smac.length = 6) (h4 : sip.length = 4)
-    (h5 : tmac.length = 6) (h6 : tip.length = 4) (hcap : 42 ≤ g.length) :
+theorem reply_wrapper_tie (g : Mem) (hostMAC dst smac sip tmac tip : Bytes) (sport tport : Nat) :
     Gen.Send.arp_spoofer_Reply g dst smac sip sport tmac tip tport hostMAC =
       sendARP g hostMAC dst 2 smac sip tmac tip :=
-  reply_tie g hostMAC dst smac sip tmac tip sport tport h1 h2 h3 h4 h5 h6 hcap
+  reply_tie g hostMAC dst smac sip tmac tip sport tport
 
 theorem icmp6SendNA_tie (g : Mem) (hm dm smac sip dip tmac tip : Bytes) (sport dport tport : Nat)
     (h1 : hm.length = 6) (h2 : dm.length = 6) (h3 : sip.length = 16) (h4 : dip.length = 16)
@@ -460,12 +535,11 @@ theorem icmp6SendEcho_invalid (g : Mem) (hm dm smac sip dip : Bytes) (sport dpor
 def bcast : Bytes := [255, 255, 255, 255, 255, 255]
 
 /-- Request: broadcast, sender = the host address, target MAC ff:ff:ff:ff:ff:ff -/
-theorem arpRequestHost_tie (g : Mem) (hostMAC hostIP tip : Bytes) (hport : Nat)
-    (h1 : hostMAC.length = 6) (h4 : hostIP.length = 4) (h6 : tip.length = 4) (hcap : 42 ≤ g.length) :
+theorem arpRequestHost_tie (g : Mem) (hostMAC hostIP tip : Bytes) (hport : Nat) (h6 : tip.length = 4) :
     Gen.Send.arp_spoofer_Request g tip hostMAC hostIP hport = sendARP g hostMAC bcast 1 hostMAC hostIP bcast tip := by
   unfold Gen.Send.arp_spoofer_Request
   rw [if_neg (by simp [h6])]
-  exact requestRaw_tie g hostMAC bcast hostMAC hostIP bcast tip hport 0 h1 rfl h1 h4 rfl h6 hcap
+  exact requestRaw_tie g hostMAC bcast hostMAC hostIP bcast tip hport 0
 
 theorem arpRequestHost_invalid (g : Mem) (hostMAC hostIP tip : Bytes) (hport : Nat) (h : tip.length ≠ 4) :
     Gen.Send.arp_spoofer_Request g tip hostMAC hostIP hport = .err .invalidIP := by
@@ -473,26 +547,23 @@ theorem arpRequestHost_invalid (g : Mem) (hostMAC hostIP tip : Bytes) (hport : N
   rw [if_pos (by simpa using h)]
 
 /-- RequestTo: unicast to `dst` -/
-theorem arpRequestTo_tie (g : Mem) (dst hostMAC hostIP tip : Bytes) (hport : Nat)
-    (h1 : hostMAC.length = 6) (h2 : dst.length = 6) (h4 : hostIP.length = 4) (h6 : tip.length = 4) (hcap : 42 ≤ g.length) :
+theorem arpRequestTo_tie (g : Mem) (dst hostMAC hostIP tip : Bytes) (hport : Nat) (h6 : tip.length = 4) :
     Gen.Send.arp_spoofer_RequestTo g dst tip hostMAC hostIP hport = sendARP g hostMAC dst 1 hostMAC hostIP bcast tip := by
   unfold Gen.Send.arp_spoofer_RequestTo
   rw [if_neg (by simp [h6])]
-  exact requestRaw_tie g hostMAC dst hostMAC hostIP bcast tip hport 0 h1 h2 h1 h4 rfl h6 hcap
+  exact requestRaw_tie g hostMAC dst hostMAC hostIP bcast tip hport 0
 
 /-- Probe (RFC 5227): broadcast, sender IP 0.0.0.0, target MAC 00:00:00:00:00:00 -/
-theorem arpProbe_tie (g : Mem) (hostMAC ip : Bytes)
-    (h1 : hostMAC.length = 6) (h6 : ip.length = 4) (hcap : 42 ≤ g.length) :
+theorem arpProbe_tie (g : Mem) (hostMAC ip : Bytes) :
     Gen.Send.arp_spoofer_Probe g ip hostMAC = sendARP g hostMAC bcast 1 hostMAC [0, 0, 0, 0] [0, 0, 0, 0, 0, 0] ip := by
   unfold Gen.Send.arp_spoofer_Probe
-  exact requestRaw_tie g hostMAC bcast hostMAC [0, 0, 0, 0] [0, 0, 0, 0, 0, 0] ip 0 0 h1 rfl h1 rfl rfl h6 hcap
+  exact requestRaw_tie g hostMAC bcast hostMAC [0, 0, 0, 0] [0, 0, 0, 0, 0, 0] ip 0 0
 
 /-- AnnounceTo: sender and target IP both the announced address -/
-theorem arpAnnounceTo_tie (g : Mem) (dst hostMAC ip : Bytes)
-    (h1 : hostMAC.length = 6) (h2 : dst.length = 6) (h6 : ip.length = 4) (hcap : 42 ≤ g.length) :
+theorem arpAnnounceTo_tie (g : Mem) (dst hostMAC ip : Bytes) :
     Gen.Send.arp_spoofer_AnnounceTo g dst ip hostMAC = sendARP g hostMAC dst 1 hostMAC ip bcast ip := by
   unfold Gen.Send.arp_spoofer_AnnounceTo
-  exact requestRaw_tie g hostMAC dst hostMAC ip bcast ip 0 0 h1 h2 h1 h6 rfl h6 hcap
+  exact requestRaw_tie g hostMAC dst hostMAC ip bcast ip 0 0
 
 /-! ### the lists emitted by the translator are the reviewed ones -/
 
